@@ -2,8 +2,10 @@
 
 Generated histories against a small reference model of a text body:
 
-  host deck (text box, auto shape, title / body placeholder, table cell, notes text frame, chart title,
-  axis title, PowerPoint-authored text box with a field and a hyperlink from txt-text.pptx)
+  host deck (text box, auto shape, title / body placeholder, picture placeholder that has no p:txBody yet, table
+  cell, notes text frame, chart title, axis title, PowerPoint-authored text box with a field and a hyperlink
+  from txt-text.pptx); in half of the cases text is also assigned to a sibling object of the same kind after
+  each step and the host must read as before
     -> prior body state (generated a:p list: a:pPr variants, runs with a:rPr, a:br, a:fld, a:endParaRPr;
        or the host's own content), optionally taken through one save/re-open so it is "as loaded"
     -> 1..3 assignments, each at one level (TextFrame.text, Shape.text / _Cell.text, _Paragraph.text,
@@ -55,7 +57,8 @@ ASSUMPTIONS = [
     "a:endParaRPr inside a:p is C10's business, here only presence and C14N equality",
     "prior states are schema-shaped (a:pPr?, (a:r|a:br|a:fld)*, a:endParaRPr?); prior run text contains no CR "
     "and no C0 control (cannot occur in a parsed file)",
-    "hosts reached: p:txBody of sp (text box, auto shape, placeholders, corpus text box), a:txBody of a:tc, "
+    "hosts reached: p:txBody of sp (text box, auto shape, placeholders incl. a picture placeholder without a body, "
+    "corpus text box), a:txBody of a:tc, "
     "notes body placeholder, c:rich of chart title and category-axis title; data-label text frames not reached",
 ]
 
@@ -64,8 +67,8 @@ NS_R = "http://schemas.openxmlformats.org/officeDocument/2006/relationships"
 A = "{%s}" % NS_A
 _PLAIN = etree.XMLParser(remove_blank_text=False, resolve_entities=False)
 
-HOSTS = ["textbox", "autoshape", "title", "body", "cell", "notes", "chart_title", "axis_title", "corpus"]
-SHAPE_HOSTS = ("textbox", "autoshape", "title", "body", "corpus")
+HOSTS = ["textbox", "autoshape", "title", "body", "cell", "notes", "chart_title", "axis_title", "corpus", "picph"]
+SHAPE_HOSTS = ("textbox", "autoshape", "title", "body", "corpus", "picph")
 LEVELS = ["frame", "owner", "para", "run"]
 
 PPRS = [
@@ -234,14 +237,20 @@ def _base_bytes(host):
     prs = Presentation()
     if key in ("title", "body"):
         slide = prs.slides.add_slide(prs.slide_layouts[1])
+    elif key == "picph":
+        # picture placeholders start without a p:txBody: the text frame creates one on first access
+        slide = prs.slides.add_slide(prs.slide_layouts[8])
+        prs.slides.add_slide(prs.slide_layouts[8])
     else:
         slide = prs.slides.add_slide(prs.slide_layouts[6])
     if key == "textbox":
         slide.shapes.add_textbox(Inches(1), Inches(1), Inches(3), Inches(1))
+        slide.shapes.add_textbox(Inches(1), Inches(3), Inches(3), Inches(1))
     elif key == "autoshape":
         from pptx.enum.shapes import MSO_SHAPE
 
         slide.shapes.add_shape(MSO_SHAPE.ROUNDED_RECTANGLE, Inches(1), Inches(1), Inches(3), Inches(1))
+        slide.shapes.add_shape(MSO_SHAPE.ROUNDED_RECTANGLE, Inches(1), Inches(3), Inches(3), Inches(1))
     elif key == "cell":
         slide.shapes.add_table(2, 2, Inches(1), Inches(1), Inches(4), Inches(2))
     elif key == "notes":
@@ -269,6 +278,9 @@ def locate(prs, host):
     if host in ("textbox", "autoshape", "corpus"):
         sh = slide.shapes[0]
         return sh, sh.text_frame
+    if host == "picph":
+        sh = slide.placeholders[1]
+        return sh, sh.text_frame
     if host == "title":
         sh = slide.shapes.title
         return sh, sh.text_frame
@@ -285,6 +297,26 @@ def locate(prs, host):
     if host == "axis_title":
         return None, slide.shapes[0].chart.category_axis.axis_title.text_frame
     raise ValueError(host)
+
+
+def sibling_frame(prs, host):
+    """text frame of another object of the host's kind in the same deck (None when the host has none)"""
+    slide = prs.slides[0]
+    if host in ("textbox", "autoshape"):
+        return slide.shapes[1].text_frame
+    if host == "picph":
+        return prs.slides[1].placeholders[1].text_frame
+    if host == "title":
+        return slide.placeholders[1].text_frame
+    if host == "body":
+        return slide.shapes.title.text_frame
+    if host == "cell":
+        return slide.shapes[0].table.cell(0, 1).text_frame
+    if host == "chart_title":
+        return slide.shapes[0].chart.category_axis.axis_title.text_frame
+    if host == "axis_title":
+        return slide.shapes[0].chart.chart_title.text_frame
+    return None
 
 
 def base_level(host, level):
@@ -509,6 +541,17 @@ def run_case(case, rec=None):
         body = observe(owner, tf, model, "live", lvl, ctx)
         # re-base the model on the verified actual item structure (run count per segment is not pinned)
         model[:] = [[list(it) for it in b["items"]] for b in body]
+        if case.get("sibling"):
+            # text given to another object of the same kind is that object's: the host reads as before
+            with core.sut("C04:sibling-assign"):
+                stf = sibling_frame(prs, host)
+                if stf is not None:
+                    stf.text = "sibling\ntext"
+                    owner, tf = locate(prs, host)
+            if stf is not None:
+                if rec is not None:
+                    rec.cls("sibling-assigned")
+                observe(owner, tf, model, "live", lvl, ctx + " [after text was assigned to a sibling object]")
         ncyc = 0
         for _ in range(op[4]):
             if total_cycles >= 3:
@@ -561,6 +604,7 @@ def case_strategy(max_len):
         "host": st.sampled_from(HOSTS),
         "prior": prior,
         "pre": st.booleans(),
+        "sibling": st.booleans(),
         "ops": st.lists(op, min_size=1, max_size=3),
     })
 
@@ -570,7 +614,7 @@ RICH_PRIOR = [
     {"ppr": 2, "end": 2, "items": [["r", " Foo ", 2], ["br", 1], ["r", " ", 0], ["fld", "1", 1], ["r", "tail", 3]]},
     {"ppr": 0, "end": 1, "items": []},
 ]
-ENUM_HOSTS = ["textbox", "cell", "body", "chart_title"]
+ENUM_HOSTS = ["textbox", "cell", "body", "chart_title", "picph"]
 
 
 def enum_strings(tier):
@@ -600,7 +644,7 @@ def enum_cases(tier):
         for level in LEVELS:
             host = ENUM_HOSTS[(k // len(LEVELS) + k) % len(ENUM_HOSTS)]
             k += 1
-            yield {"host": host, "prior": RICH_PRIOR, "pre": bool(k % 3 == 0),
+            yield {"host": host, "prior": RICH_PRIOR, "pre": bool(k % 3 == 0), "sibling": bool(k % 2),
                    "ops": [[level, 1, 1, s, 1]]}
 
 
